@@ -64,7 +64,7 @@ func memData(e *env, addrOf func(slot uint64) uint64, pidOf func(slot int) vm.PI
 	}
 }
 
-func noPID(int) vm.PID       { return 0 }
+func noPID(int) vm.PID        { return 0 }
 func slotPID(slot int) vm.PID { return vm.PID(1 + slot%2) }
 
 // newIdealMem builds an ideal memory controller used as a lower neighbour.
